@@ -363,6 +363,56 @@ pub fn node() -> impl Strategy<Value = Node> {
     })
 }
 
+/// The same trees decoded from bytes (for the coverage-guided driver; exhausted bytes give the
+/// first alternative everywhere, so decoding always ends).
+pub fn node_from(d: &mut vmodel::dec::D, depth: usize) -> Node {
+    fn nm(d: &mut vmodel::dec::D) -> String {
+        const A: &[&str] = &["a", "b", "c", "field", "m", "r1", "r2", "x_y", "k/l", "p at q", "A:[0]", "_"];
+        let base = d.pick(A).to_string();
+        if d.ratio(1, 3) {
+            format!("{}{}", base, d.below(10))
+        } else {
+            base
+        }
+    }
+    fn ops(d: &mut vmodel::dec::D) -> Vec<Op> {
+        let n = d.below(4);
+        (0..n)
+            .map(|_| match d.weighted(&[5, 4, 1, 1]) {
+                0 => Op::At(nm(d)),
+                1 => Op::Span(d.byte()),
+                2 => Op::Clone,
+                _ => Op::Flatten,
+            })
+            .collect()
+    }
+    if depth >= 5 || !d.ratio(2, 5) {
+        let k = match d.below(14) {
+            0 => Kind::Custom(nm(d)),
+            1 => Kind::Duplicate(nm(d)),
+            2 => Kind::Missing(nm(d)),
+            3 => Kind::Unknown(nm(d)),
+            4 => {
+                let n = d.below(4);
+                Kind::UnknownAlts(d.pick(&["ab", "abc", "name", "naem"]).to_string(), (0..n).map(|_| d.pick(&["ab", "abd", "names", "other"]).to_string()).collect())
+            }
+            5 => Kind::Shape(nm(d)),
+            6 => Kind::ShapeExp(nm(d), nm(d)),
+            7 => Kind::Format(nm(d)),
+            8 => Kind::Type(nm(d)),
+            9 => Kind::Value(nm(d)),
+            10 => Kind::TooFew(d.below(9)),
+            11 => Kind::TooMany(d.below(9)),
+            12 => Kind::LitType(d.byte()),
+            _ => Kind::FromSyn(d.byte(), nm(d)),
+        };
+        return Node { body: Body::Leaf(k), ops: ops(d) };
+    }
+    let n = d.range(1, 5);
+    let kids = (0..n).map(|_| node_from(d, depth + 1)).collect();
+    Node { body: Body::Multi(kids), ops: ops(d) }
+}
+
 // ------------------------------------------------------------------------------------------
 // oracles
 
@@ -516,16 +566,17 @@ pub fn check_c04(ctx: &Ctx, n: &Node) -> Result<(), Fail> {
     );
     for (i, l) in leaves.iter().enumerate() {
         let m = l.msg.clone().unwrap_or_else(|| l.base.clone());
-        // spanned leaves show the bare message, unspanned ones the full Display; which of the two
-        // applies is C03's business (it depends on span inheritance), here either is accepted.
+        // a leaf that has a span (its own, or its nearest enclosing bundle's) shows the bare message - the
+        // caret says where; a leaf without any shows the full Display, location path included
+        let expected = if l.span.is_some() { &m } else { &want[i] };
         ensure!(
-            syn_msgs[i] == m || syn_msgs[i] == want[i],
+            &syn_msgs[i] == expected,
             "c04:syn-message",
-            "diagnostic {} is {:?}, expected {:?} or {:?}",
+            "diagnostic {} is {:?}, expected {:?} (the leaf {} a span)",
             i,
             syn_msgs[i],
-            m,
-            want[i]
+            expected,
+            if l.span.is_some() { "has" } else { "has not" }
         );
     }
     let ce = compile_errors(e.clone().write_errors());
